@@ -55,42 +55,30 @@ Theorem C19_oracle_sound : forall ot r,
 Proof. exact check_sync_sound. Qed.
 Print Assumptions C19_oracle_sound.
 
-(* FULL STATEMENTS for bounded peach under cancellation:
-     peach_bound_under_cancel: forall cb n s k, reach c cb n s -> bound c = Some k -> running n s <= k
-     sema_never_negative:      forall cb n s, reach c cb n s -> panicked s = false
-   Both are FALSE of the code as it is (the Acquire error is ignored: a worker
-   starts without a token, and its Release panics): *)
-Theorem C19_peach_bound_under_cancel_refuted :
-  exists cb n s, reach (faithful (Some 1)) cb n s /\ running n s = 2.
-Proof. exact peach_bound_under_cancel_refuted. Qed.
-Print Assumptions C19_peach_bound_under_cancel_refuted.
+(* Bounded peach under cancellation, for every input count, bound, callback
+   behaviour, EVERY schedule and every cancellation moment: never more callbacks
+   at once than the bound, and the semaphore is never released below zero (no Go
+   panic).  The Acquire error is honoured: no worker starts without a token.
+   (Before the fix for finding peach-bounded-cancel both were refuted.) *)
+Theorem C19_peach_bound_under_cancel : forall b cb n s k,
+  reach (faithful b) cb n s -> b = Some k -> running n s <= k.
+Proof. exact peach_bound_under_cancel. Qed.
+Print Assumptions C19_peach_bound_under_cancel.
 
-Theorem C19_sema_never_negative_refuted :
-  exists cb n s, reach (faithful (Some 1)) cb n s /\ panicked s = true.
-Proof. exact sema_never_negative_refuted. Qed.
-Print Assumptions C19_sema_never_negative_refuted.
+Theorem C19_sema_never_negative : forall b cb n s,
+  reach (faithful b) cb n s -> panicked s = false.
+Proof. exact sema_never_negative. Qed.
+Print Assumptions C19_sema_never_negative.
 
-(* ... and TRUE, for every schedule and every cancellation moment, of the
-   dispatcher that honours the Acquire error (REPAIRED model, fix_acqerr = true) *)
-Theorem C19_peach_bound_under_cancel_repaired : forall b r cb n s k,
-  reach (mkCfg b r true) cb n s -> b = Some k -> running n s <= k.
-Proof. exact peach_bound_under_cancel_repaired. Qed.
-Print Assumptions C19_peach_bound_under_cancel_repaired.
-
-Theorem C19_sema_never_negative_repaired : forall b r cb n s,
-  reach (mkCfg b r true) cb n s -> panicked s = false.
-Proof. exact sema_never_negative_repaired. Qed.
-Print Assumptions C19_sema_never_negative_repaired.
-
-(* as it is, the bound holds as long as no cancellation happened *)
-Theorem C19_peach_bound_without_cancel_partial : forall c cb n s b,
+(* for any dispatcher configuration the bound holds as long as no cancellation happened *)
+Theorem C19_peach_bound_without_cancel : forall c cb n s b,
   reach c cb n s -> cancelled s = false -> bound c = Some b ->
   running n s <= b /\ panicked s = false.
 Proof.
   intros c cb n s b Hr Hc Hb. split;
   [exact (bound_respected c cb n s b Hr (or_intror Hc) Hb)|exact (no_panic c cb n s Hr (or_intror Hc))].
 Qed.
-Print Assumptions C19_peach_bound_without_cancel_partial.
+Print Assumptions C19_peach_bound_without_cancel.
 
 (* non-vacuity: a program that cancels in the middle *)
 Example C19_example_cancel_in_try :
